@@ -14,7 +14,7 @@ if a[:1] == ['-j']: J = int(a[1]); a = a[2:]
 kind, only = a[0], a[1:]
 base = 'benign' if kind == 'benign' else 'seeded'
 ids = [os.path.basename(os.path.dirname(p)) for p in sorted(glob.glob('/verif/%s/*/patch.diff' % base))]
-if only: ids = [i for i in ids if any(i.startswith(o) for o in only)]
+if only: ids = [i for i in ids if any((i.endswith(o[1:]) if o.startswith('%') else i.startswith(o)) for o in only)]
 KNOWN = ['rule=%s construct=%s ' % (f['rule'], f['construct']) for f in json.load(open('/verif/known_findings.json')).get('findings', []) if f.get('status') == 'known']
 os.makedirs('/tmp/fmx', exist_ok=True)
 def worker(k):
